@@ -140,6 +140,15 @@ b("gen-impl-inline-not-always", G,
   "            let gen = quote! {\n                #[inline(always)]\n                #safety #abi fn #name <#sig_life_declare #sig_gen_declare> (#args) #out {",
   "            let gen = quote! {\n                #[inline]\n                #safety #abi fn #name <#sig_life_declare #sig_gen_declare> (#args) #out {", ["C01", "C02", "C04"])
 
+b("gen-slice-arg-convert-in-let", G,
+  "                            ret = Some((\n                                quote!(),\n                                quote!(#name.into(),),\n                                quote!(#name: #slty,),",
+  "                            ret = Some((\n                                quote!(let #name = #name.into();),\n                                quote!(#name,),\n                                quote!(#name: #slty,),", ["C01", "C02", "C03"])
+b("gen-option-arg-convert-inline", G,
+  "                                            ret = Some((\n                                                quote!(let #name = #name.into();),\n                                                quote!(#name,),\n                                                quote!(#name: #crate_path::option::COption<#a>,),",
+  "                                            ret = Some((\n                                                quote!(),\n                                                quote!(#name.into(),),\n                                                quote!(#name: #crate_path::option::COption<#a>,),", ["C01", "C02", "C03"])
+b("gen-slice-arg-ufcs-into", G,
+  "                                if into_str {\n                                    quote!(unsafe { #name.into_str() },)\n                                } else {\n                                    quote!(#name.into(),)\n                                },",
+  "                                if into_str {\n                                    quote!(unsafe { #name.into_str() },)\n                                } else {\n                                    quote!(::core::convert::Into::into(#name),)\n                                },", ["C01", "C02"])
 BG = "cglue-bindgen/src/codegen/c.rs"
 b("bindgen-contexts-hashset-then-sorted-vec", BG,
   "    let mut contexts = BTreeSet::new();\n",
@@ -220,6 +229,21 @@ b("bindgen-main-output-first-wins-binding", BM,
   "                if output_file.is_none() {\n                    output_file = Some(a[1].clone());\n                }",
   "                let path = a[1].clone();\n                if output_file.is_none() {\n                    output_file = Some(path);\n                }", ["C18"])
 TG = "cglue/src/trait_group.rs"
+b("tg-cobj-ref-explicit-deref", TG,
+  "    fn cobj_ref(&self) -> (&F, &R, &Self::Context) {\n        (self.instance.deref(), &self.ret_tmp, &self.context)",
+  "    fn cobj_ref(&self) -> (&F, &R, &Self::Context) {\n        let inst: &F = &*self.instance;\n        (inst, &self.ret_tmp, &self.context)", ["C01", "C06", "C07"])
+b("tg-cobj-mut-locals", TG,
+  "        (self.instance.deref_mut(), &mut self.ret_tmp, &self.context)",
+  "        let Self {\n            instance,\n            ret_tmp,\n            context,\n        } = self;\n        (instance.deref_mut(), ret_tmp, &*context)", ["C01", "C06", "C07"])
+b("tg-cobj-base-owned-destructure", TG,
+  "    fn cobj_base_owned(self) -> (T, Self::Context) {\n        (self.instance, self.context)",
+  "    fn cobj_base_owned(self) -> (T, Self::Context) {\n        let Self {\n            instance, context, ..\n        } = self;\n        (instance, context)", ["C01", "C06", "C07"])
+b("tg-pin-ref-inline", TG,
+  "        let this = self.get_ref();\n        let (a, b, c) = this.cobj_ref();",
+  "        let (a, b, c) = self.get_ref().cobj_ref();", ["C01"])
+b("tg-build-with-ccont-copy-vtbl", TG,
+  "        Self {\n            container,\n            vtbl: self.vtbl,\n        }\n    }\n}\n\n/// Convert a container into inner type.",
+  "        let vtbl = self.vtbl;\n        Self { container, vtbl }\n    }\n}\n\n/// Convert a container into inner type.", ["C01", "C06", "C07"])
 b("verify-and-flat-match", TG,
   "        match self {\n            VerifyLayout::Valid => other,\n            VerifyLayout::Invalid => self,\n            _ => match other {\n                VerifyLayout::Valid => self,\n                _ => other,\n            },\n        }",
   "        match (self, other) {\n            (VerifyLayout::Invalid, _) | (_, VerifyLayout::Invalid) => VerifyLayout::Invalid,\n            (VerifyLayout::Unknown, _) | (_, VerifyLayout::Unknown) => VerifyLayout::Unknown,\n            (VerifyLayout::Valid, VerifyLayout::Valid) => VerifyLayout::Valid,\n        }", ["C20"])
